@@ -643,6 +643,67 @@ def rt_repo():
     return REPO
 
 
+def _probe_process_state():
+    """process-wide state outside pyrepseq that later results depend on - NumPy's floating-point error mode, its print options, the state of the
+    global random generator, pandas options, warning filters - is the same after a battery of public calls (several of which raise)"""
+    import warnings
+    import numpy as np
+    import pandas as pd
+    import pyrepseq
+    from pyrepseq import stats, distance, entropy, io, clustering
+    from pyrepseq.metric import Levenshtein, WeightedLevenshtein
+
+    def snapshot():
+        st = np.random.get_state()
+        return {"np.geterr": dict(np.geterr()), "np.printoptions": {k: v for k, v in np.get_printoptions().items() if k != "formatter"},
+                "np.random state": (st[0], st[1].tobytes(), st[2], st[3], st[4]), "pandas copy_on_write": pd.get_option("mode.copy_on_write"),
+                "pandas chained_assignment": pd.get_option("mode.chained_assignment") if "mode.chained_assignment" in pd.options.mode.__dir__() else None,
+                "warning filters": len(warnings.filters)}
+    df = pd.DataFrame({"TRAV": ["TRAV1-1*01", "TRAV5*01"], "CDR3A": ["CAVF", "CALF"], "TRBV": ["TRBV9*01", "TRBV10-1*01"], "CDR3B": ["CASSF", "CASRF"]})
+    deterministic = [
+        lambda: pyrepseq.nearest_neighbor(["CASSF", "CASSL", "CAS"], max_edits=1),
+        lambda: pyrepseq.kdtree(["CASSF", "CASSL", "CAS"], max_edits=2, n_cpu=2),
+        lambda: pyrepseq.hash_based(["CASSF", "CASSL"], max_edits=1, output_type="ndarray"),
+        lambda: pyrepseq.symdel([], max_edits=1),                                            # raises
+        lambda: pyrepseq.kdtree(["CASSF"], max_edits=0),                                     # raises
+        lambda: stats.pc(["X"]),                                                             # nan (0/0)
+        lambda: stats.pc(["a", "b", "a"]), lambda: stats.pc_n([2, 1]), lambda: stats.varpc_n(np.array([3, 2, 1])),
+        lambda: stats.chao1([3, 0]), lambda: stats.var_chao1([3, 0]), lambda: stats.jaccard_index([1, 2], pd.Series([2, None])),
+        lambda: stats.powerlaw_mle_alpha([1, 1, 2, 3, 9], method="simple"),
+        lambda: stats.powerlaw_mle_alpha([1, 1, 2, 3, 9], options=dict(maxiter=1)),          # fitting fails -> raises
+        lambda: stats.powerlaw_mle_alpha([1, 1, 1, 2, 3, 9]),
+        lambda: stats.powerlaw_mle_alpha([0, 1, 2], cmin=0),                                 # log(0) inside the likelihood
+        lambda: entropy.renyi2_entropy(pd.DataFrame({"a": ["x", "y", "z"]}), "a"),           # inf
+        lambda: distance.pcDelta(["CASSF", "CASSL", "CAS"], bins=np.arange(0, 5)),
+        lambda: distance.pcDelta(df), lambda: distance.hierarchical_clustering(["CASSF", "CASSL", "CAS", "CQ"]),
+        lambda: Levenshtein().calc_pdist_vector(["CA", "CAS"]), lambda: WeightedLevenshtein(2, 1, 3).calc_cdist_matrix(["CA"], ["CAS", ""]),
+        lambda: io.standardize_dataframe(df.rename(columns={"CDR3A": "foo"}), col_mapper={"foo": "CDR3A"}, suppress_warnings=True),
+        lambda: io.standardize_dataframe(df, df_old=df),                                     # raises
+        lambda: clustering.graph_clustering([(0, 1, 1)], ["a", "b", "c"]),
+        lambda: distance.nndist_hamming("CAS", {"CAT", "CA"}, maxdist=3),
+    ]
+    np.random.seed(4321)
+    before = snapshot()
+    with warnings.catch_warnings():
+        warnings.simplefilter("ignore")
+        for call in deterministic:
+            try:
+                call()
+            except Exception:  # noqa
+                pass
+    after = snapshot()
+    bad = [f"{k}: {before[k] if k != 'np.random state' else '<state>'} -> {after[k] if k != 'np.random state' else '<another state>'}" for k in before if before[k] != after[k]]
+    with warnings.catch_warnings():
+        warnings.simplefilter("ignore")
+        try:
+            v = stats.pc(["X"])
+            if v == v:
+                bad.append(f"pc(['X']) = {v!r} after the calls, nan expected")
+        except Exception as e:  # noqa
+            bad.append(f"pc(['X']) raised {type(e).__name__} after the calls (nan in a fresh interpreter)")
+    return not bad, "[process-state probe] " + ("; ".join(bad) if bad else "ok")
+
+
 def _probe_seeded_at_scale():
     """randomised public functions at sizes no symbolic bound reaches (a change may switch algorithm - and generator - above a size threshold):
     the same NumPy seed gives the same value, also with other pyrepseq calls in between, and arguments stay untouched"""
@@ -684,4 +745,6 @@ def conditions(tier):
                              bounds=f"inductive step for {name}: arguments, all mutable defaults, result before/after havoc + interposed calls"))
     out.append(hc.probe_condition("C20/probe/randomised-calls-at-scale", "subsample on 10^5 and 10^6+ individuals, downsample / pcDelta(maxseqs) on 3000 sequences, powerlaw_sample of "
                                   "200 000 draws, labels_to_colors_hls on 5000 labels: same NumPy seed -> same value, arguments untouched", _probe_seeded_at_scale))
+    out.append(hc.probe_condition("C20/probe/process-wide-state", "NumPy error mode / print options / global generator state, pandas options and warning filters before and after 26 "
+                                  "public calls (deterministic ones, six of them raising): unchanged, and pc of a one-element sample is still nan", _probe_process_state))
     return out
